@@ -223,6 +223,8 @@ BREAKING = [
     ('C07', 'sc3/base/_oscinterface.py', "            self._raw_score.extend(entry.msg)", "            self._raw_score.extend(entry.bndl)", 'score bytes taken from the wrong field of an entry'),
     ('C07', 'sc3/base/_oscinterface.py', "        if _libsc3.main.current_tt is _libsc3.main.main_tt:\n            tailtime += _libsc3.main.current_tt._seconds", "        if _libsc3.main.current_tt is not _libsc3.main.main_tt:\n            tailtime += _libsc3.main.current_tt._seconds", 'score tail made absolute inside routines instead of outside'),
     ('C20', 'sc3/synth/ugen.py', "        self._synthdef = _libsc3.main._current_synthdef\n        if self._synthdef is not None:\n            self._synthdef._add_ugen(self)\n\n    def _collect_constants", "        self._synthdef = _libsc3.main._current_synthdef\n        if self._synthdef is not None:\n            pass\n\n    def _collect_constants", 'a new unit does not register with the definition being built'),
+    ('C13', 'sc3/base/stream.py', "            indict = indict.copy()\n            indict.update(self.value)\n            return (yield indict)", "            indict.update(self.value)\n            return (yield indict)", 'embedding a dictionary writes into the input event'),
+    ('C13', 'sc3/base/stream.py', "    if hasattr(obj, '__embed__'):\n        return obj.__embed__(inval)", "    if hasattr(obj, '__embed__'):\n        return obj.__embed__()", 'embed() drops the input value'),
 ]
 
 
